@@ -203,7 +203,40 @@ pub fn run(ctx: &mut Ctx) {
             p
         };
         let k = rng.range(1, 4);
-        let gens: Vec<Vec<usize>> = (0..k).map(|_| rp(&mut rng)).collect();
+        let mut gens: Vec<Vec<usize>> = (0..k).map(|_| rp(&mut rng)).collect();
+        if rng.chance(1, 2) {
+            // block-structured sets: the slots are split into two blocks (at a random position of a random arrangement);
+            // some generators permute inside one block only (they fix the other block, possibly a whole orbit, pointwise),
+            // others act on both blocks at once — stabilizers then need conjugates of the block-local generators
+            let mut arr: Vec<usize> = (0..n).collect();
+            rng.shuffle(&mut arr);
+            let cut = rng.range(2, n - 2);
+            let (ba, bb) = arr.split_at(cut);
+            let within = |rng: &mut Rng, blk: &[usize]| -> Vec<usize> {
+                let mut p: Vec<usize> = (0..n).collect();
+                let mut img = blk.to_vec();
+                if blk.len() >= 3 && rng.chance(1, 2) {
+                    img.rotate_left(1);
+                } else {
+                    let (i, j) = (rng.below(blk.len()), rng.below(blk.len()));
+                    img.swap(i, j);
+                }
+                for (x, y) in blk.iter().zip(img.iter()) {
+                    p[*x] = *y;
+                }
+                p
+            };
+            let compose = |a: &Vec<usize>, b: &Vec<usize>| -> Vec<usize> { (0..n).map(|i| b[a[i]]).collect() };
+            let mut g: Vec<Vec<usize>> = Vec::new();
+            let both = compose(&within(&mut rng, ba), &within(&mut rng, bb));
+            g.push(both);
+            g.push(within(&mut rng, bb));
+            if rng.chance(1, 2) {
+                g.push(within(&mut rng, ba));
+            }
+            rng.shuffle(&mut g);
+            gens = g;
+        }
         let adds: Vec<Vec<usize>> = (0..rng.range(1, 2)).map(|_| rp(&mut rng)).collect();
         let qs: Vec<Vec<usize>> = (0..40).map(|_| rp(&mut rng)).collect();
         ctx.emit(exec(omega, gens, adds, qs));
